@@ -55,7 +55,8 @@ func checkC01(c *Check) {
 		// decisive (C11.R3) — an error document answered with status 200 must not keep an expired session alive
 		importObls(c, "C11", checkC11, "C01.R2", func(o *Obligation) bool { return strings.Contains(o.Key, "token-type-decisive") })
 		importObls(c, "C10", checkC10, "C01.R6", func(o *Obligation) bool {
-			return strings.HasPrefix(o.Key, "C10.R4/ctor-field/") || strings.HasPrefix(o.Key, "C10.R4/timeout-written-outside-constructor")
+			return strings.HasPrefix(o.Key, "C10.R4/ctor-field/") || strings.HasPrefix(o.Key, "C10.R4/timeout-written-outside-constructor") ||
+				strings.HasPrefix(o.Key, "C10.R4/wiring/")
 		})
 	}
 	c01R5(c, R)
